@@ -398,6 +398,9 @@ func (chs *ClientHelloSpec) ImportTLSClientHello(data map[string][]byte) error {
 				// need to add (zero) data per each key share, [10, 10, 0, 1] => [10, 10, 0, 1, 0]
 				fixedData := make([]byte, 0)
 				for i := 0; i < len(data["key_share"]); i += 4 {
+					if i+4 > len(data["key_share"]) {
+						return errors.New("key_share must consist of (group, length) pairs of 4 bytes")
+					}
 					fixedData = append(fixedData, data["key_share"][i:i+4]...)
 					for j := 0; j < int(data["key_share"][i+3]); j++ {
 						fixedData = append(fixedData, 0)
